@@ -21,6 +21,9 @@ func (o *Optimizer) init() error {
 		return err
 	}
 	o.stmt = stmt
+	if err = o.checkFunctionCalls(stmt); err != nil {
+		return err
+	}
 	switch vstmt := stmt.(type) {
 	case *SelectStmt:
 		o.optimizeSelectExpressions(vstmt)
@@ -31,6 +34,61 @@ func (o *Optimizer) init() error {
 		o.optimizeDeleteExpressions(vstmt)
 		o.filter = &FilterExec{
 			Ast: vstmt.Where,
+		}
+	}
+	return nil
+}
+
+// checkFunctionCalls rejects unknown functions and wrong numbers of arguments
+// when the plan is built, wherever the call sits in the statement
+func (o *Optimizer) checkFunctionCalls(stmt Statement) error {
+	var exprs []Expression
+	switch vstmt := stmt.(type) {
+	case *SelectStmt:
+		exprs = append(exprs, vstmt.Where.Expr)
+		exprs = append(exprs, vstmt.Fields...)
+	case *DeleteStmt:
+		exprs = append(exprs, vstmt.Where.Expr)
+	case *PutStmt:
+		for _, kvp := range vstmt.KVPairs {
+			exprs = append(exprs, kvp.Key, kvp.Value)
+		}
+	case *RemoveStmt:
+		exprs = append(exprs, vstmt.Keys...)
+	}
+	var ret error
+	for _, expr := range exprs {
+		expr.Walk(func(e Expression) bool {
+			if ret != nil {
+				return false
+			}
+			fc, ok := e.(*FunctionCallExpr)
+			if !ok {
+				return true
+			}
+			fname, err := GetFuncNameFromExpr(fc)
+			if err != nil {
+				ret = err
+				return false
+			}
+			nargs := len(fc.Args)
+			if fobj, have := GetScalarFunctionByName(fname); have {
+				if !fobj.VarArgs && nargs != fobj.NumArgs {
+					ret = NewSyntaxError(fc.GetPos(), "Function %s require %d arguments but got %d", fobj.Name, fobj.NumArgs, nargs)
+				} else if fobj.VarArgs && nargs < fobj.NumArgs {
+					ret = NewSyntaxError(fc.GetPos(), "Function %s require at least %d arguments but got %d", fobj.Name, fobj.NumArgs, nargs)
+				}
+			} else if afobj, have := GetAggrFunctionByName(fname); have {
+				if !afobj.VarArgs && nargs != afobj.NumArgs {
+					ret = NewSyntaxError(fc.GetPos(), "Function %s require %d arguments but got %d", afobj.Name, afobj.NumArgs, nargs)
+				}
+			} else {
+				ret = NewSyntaxError(fc.GetPos(), "Cannot find function %s", fname)
+			}
+			return ret == nil
+		})
+		if ret != nil {
+			return ret
 		}
 	}
 	return nil
